@@ -7,7 +7,10 @@
    new block manager built by newBlockManager over the same stores — and
    OHeadersF — a headers message during whose handling a write to the block
    header store fails —, in any order, with any arguments) from [init_state], i.e. in every reachable
-   state [reach P gfh ops].  The only hypothesis is [in_domain ops]: fewer
+   state [reach P gfh ops].  (Not covered: OHeadersR, a headers message during
+   which the process dies inside a rollback — the notification of the block
+   being removed dies with the process and its subscribers; [in_domain] gives
+   it the weight of the whole domain, C19/Statements.v.)  The only hypothesis is [in_domain ops]: fewer
    than 1,000,000 block headers delivered in total (the model converts
    heights to list positions exactly only below that bound).  No hypothesis
    on [trap], on the peers or on the validity of the headers is needed. *)
